@@ -6,7 +6,7 @@ from checks.outparse import parse_raws
 
 ID = "C16"
 LEAN_MODULES = ["Econf.Props.C16"]
-THEOREMS = []
+THEOREMS = ["Econf.C16_gate", "Econf.C16_refused", "Econf.C16_reset", "Econf.C16_all_pass_history", "Econf.C16_all_pass_file", "Econf.C16_first_refused"]
 SHRINK = False
 RULE = ("small trees x every consulted file assigned {matching, foreign} owner and group and {regular, symbolic link} at random x every "
         "subset of {required owner, required group, no symlinks} x read entry points (single file, layered, two-directory, history); "
